@@ -30,6 +30,9 @@ def tag_is_placeholder_check(hed_schema, tag_entry, attribute_name):
         issues(list): A list of issues from validating this attribute.
     """
     issues = []
+    if not hasattr(tag_entry, "parent"):
+        # Only a tag can be a placeholder; the attribute itself is reported as invalid for this section
+        return issues
     if not tag_entry.name.endswith("/#"):
         issues += ErrorHandler.format_error(SchemaWarnings.SCHEMA_NON_PLACEHOLDER_HAS_CLASS, tag_entry.name,
                                             attribute_name)
